@@ -37,7 +37,7 @@ class Harness:
 
 
 # ---------------------------------------------------------------------------- native replay
-def native_test(world, crate, host_rel, test_src, test_name, release=True, timeout=900):
+def native_test(world, crate, host_rel, test_src, test_name, release=True, timeout=900, profiles=None, lib=True):
     """append `#[cfg(test)] #[path] mod verif_replay;` to host_rel inside a scratch copy of the
     snapshot and run the named test in dev (and release).  Returns dict profile -> (passed, output)."""
     ws = os.path.join(prep.CACHE, 'replay-ws-%d' % os.getpid())
@@ -51,10 +51,20 @@ def native_test(world, crate, host_rel, test_src, test_name, release=True, timeo
             f.write('\n#[cfg(test)]\n#[path = "%s"]\nmod verif_replay;\n' % tf)
         env = dict(prep.ENV, CARGO_TARGET_DIR=os.path.join(prep.CACHE, 'target-replay'))
         with prep.Lock('replay'):
-            for prof in (['dev', 'release'] if release else ['dev']):
-                cmd = ['cargo', 'test', '--offline', '-p', crate, '--lib'] + (['--release'] if prof == 'release' else []) + ['verif_replay::' + test_name, '--', '--nocapture', '--test-threads', '1']
+            for prof in (profiles or (['dev', 'release'] if release else ['dev'])):
+                # the build directory is shared between trees: cargo decides freshness by mtime, and a snapshot made earlier
+                # keeps its old mtimes, so when the last build of this profile was of another tree, bump the sources
+                stamp = os.path.join(prep.CACHE, 'target-replay', '.verif-snap-' + prof)
+                if not os.path.exists(stamp) or open(stamp).read() != world.tree_hash:
+                    now = time.time()
+                    for root, _, files in os.walk(os.path.join(ws, 'crates')):
+                        for fn in files:
+                            if fn.endswith(('.rs', '.toml')): os.utime(os.path.join(root, fn), (now, now))
+                    if os.path.exists(stamp): os.remove(stamp)
+                cmd = ['cargo', 'test', '--offline', '-p', crate] + (['--lib'] if lib else ['--bins']) + (['--release'] if prof == 'release' else []) + ['verif_replay::' + test_name, '--', '--nocapture', '--test-threads', '1']
                 p = subprocess.run(cmd, cwd=ws, env=env, stdout=subprocess.PIPE, stderr=subprocess.STDOUT, timeout=timeout)
                 txt = p.stdout.decode(errors='replace')
+                os.makedirs(os.path.dirname(stamp), exist_ok=True); open(stamp, 'w').write(world.tree_hash)
                 ran = re.search(r'test result: (ok|FAILED)\. (\d+) passed; (\d+) failed', txt)
                 if 'VERIF-VIOLATED' in txt and 'VERIF-VIOLATED' not in txt[-3000:]:
                     i = txt.index('VERIF-VIOLATED'); txt = txt[:i + 300] + ' ... ' + txt[-2500:]
@@ -111,7 +121,8 @@ def run_property(pid, tier, harnesses, world, seed, wall_budget, extra=None):
         hs = {'name': h.name, 'bounds': h.bounds, 'paths': S.paths, 'status': dict(S.status), 'classes': dict(S.classes),
               'branch_decisions': S.transitions, 'solver_queries': S.sc, 'solver_seconds': round(S.stime, 2), 'mir_steps': S.steps,
               'max_call_depth': S.maxdepth, 'wall_s': round(S.wall, 1), 'exhaustive': S.exhaustive, 'unexplored_prefixes': S.left,
-              'obligations': S.obligations}
+              'obligations': S.obligations,
+              'hashmap_iteration_order': 'a decision: every permutation up to 3 entries, rotations and their reverses beyond' if getattr(h, 'hash_orders', True) and os.environ.get('VERIF_HASH_ORDERS') != '0' else 'insertion order (assumed)'}
         cov['harnesses'].append(hs)
         cov['states'] += S.paths; cov['transitions'] += S.transitions; cov['solver_queries'] += S.sc
         cov['solver_seconds'] += S.stime; cov['mir_steps'] += S.steps; cov['obligations'] += S.obligations
@@ -154,6 +165,11 @@ def run_property(pid, tier, harnesses, world, seed, wall_budget, extra=None):
         for k, vs in seen.items():
             v = vs[0]
             rep, path, text = h.replay(world, v)
+            if rep is False and any(str(k_).startswith('hashorder!') for k_ in (v.get('model') or {})):
+                # the counterexample fixes an iteration order of a std HashMap, which a native run draws at random: retry
+                for _ in range(6):
+                    rep, path, text = h.replay(world, v)
+                    if rep is not False: break
             cov['replays'].append({'harness': h.name, 'key': k, 'count': len(vs), 'reproduced': rep, 'replay': path, 'model': jsonable(v.get('model')), 'detail': jsonable(v.get('detail')), 'note': text[-600:] if text else None})
             if rep is True:
                 cov['traces_validated_against_impl'] += 1
@@ -175,6 +191,12 @@ def run_property(pid, tier, harnesses, world, seed, wall_budget, extra=None):
     if extra:
         cov.update(extra.get('coverage', {}))
         cov['traces_validated_against_impl'] += extra.get('validated', 0)
+        for v in extra.get('violations', []):
+            cov['replays'].append({'harness': v['harness'], 'key': f"{pid} {v['tag']}", 'count': 1, 'reproduced': True, 'replay': v['replay'], 'model': None, 'detail': v['detail'], 'note': None})
+            nviol += 1
+            lines.append(f"VIOLATION property={pid} replay={v['replay']}")
+            print(f"[{pid}] violation (native): {v['detail']}", flush=True)
+            exit_code = 1
     cov['functions_encoded'] = sorted(hashed_fns(world, fns))
     cov['stubs'] = sorted(stubs)
     cov['solver_seconds'] = round(cov['solver_seconds'], 2)
